@@ -203,6 +203,8 @@ fn life_cfg(name: String, is7: bool, d: u32) -> Config
                     v.push(Op::ResMutate(How::GetMut));
                     v.push(Op::Despawn(0));
                     v.push(Op::Despawn(1));
+                    // every component of a watched entity removed while it stays alive (its despawn tracker goes too)
+                    if is7 { v.push(Op::Clear(1)); }
                     v.push(Op::Gc);
                     v.push(Op::Poll);
                     v.push(Op::Run(0));
@@ -222,6 +224,39 @@ fn life_cfg(name: String, is7: bool, d: u32) -> Config
                 c.max_per_run = 2;
                 c.final_gc = true;
                 c.max_runs = 200;
+                c
+}
+
+/// Systems whose entity survives without its system (`clear()` on a system command entity), next to ordinary stale
+/// targets.
+fn strip_cfg(name: String, n: u32) -> Config
+{
+                let mut c = Config::base(&name);
+                c.actors = vec![Variant::Plain, Variant::Plain, Variant::Plain];
+                c.n_ents = 1;
+                c.setup = vec![
+                    Op::Register(1, Bundle::two(Trig::Broadcast(Ev::A), Trig::EntityEvent(Ev::A, 0)), Mode::Persistent),
+                    Op::Register(2, Bundle::two(Trig::Broadcast(Ev::A), Trig::Despawn(0)), Mode::Persistent),
+                    Op::RegisterNew(Variant::Plain, Bundle::one(Trig::Broadcast(Ev::A)), Mode::Revokable),
+                ];
+                c.fixed_top = vec![Op::Run(0)];
+                let alpha: AlphabetFn = Arc::new(|i: &DynInfo| {
+                    let mut v = Vec::new();
+                    for a in i.ready_actors() { v.push(Op::StripSys(a)); v.push(Op::Run(a)); v.push(Op::SysEvent(a)); }
+                    v.push(Op::Broadcast(Ev::A));
+                    v.push(Op::EntityEvent(Ev::A, 0));
+                    v.push(Op::Despawn(0));
+                    for k in i.ready_tokens() { v.push(Op::Revoke(k)); }
+                    v
+                });
+                c.script = alpha.clone();
+                c.top = alpha;
+                c.max_top = 2;
+                c.budget = n;
+                c.max_per_run = 3;
+                c.max_runs = 300;
+                c.sym_actors = vec![];
+                c.final_gc = true;
                 c
 }
 
@@ -488,7 +523,34 @@ pub fn plan(property: &str, tier: Tier) -> Option<Plan>
             {
                 items.push(item(life_cfg(format!("C13/once-state/D{d}"), false, d), "once-state", &format!("D={d}")));
             }
-            reports = vec!["C13", "C15"];
+            // systems that are despawned and registrations that are created at apply time in the same run: a new system may
+            // get the entity index of one that has just vanished (and must still start from state of its own)
+            let ns: &[u32] = if q { &[4] } else { &[4, 5] };
+            for &n in ns
+            {
+                let mut c = Config::base(&format!("C13/respawn/N{n}"));
+                c.world_route = true;
+                c.actors = vec![Variant::Plain, Variant::Plain];
+                c.n_ents = 1;
+                c.setup = vec![Op::Register(0, Bundle::one(Trig::Broadcast(Ev::A)), Mode::Persistent)];
+                let alpha: AlphabetFn = Arc::new(|i: &DynInfo| {
+                    let mut v = Vec::new();
+                    for a in i.ready_actors() { v.push(Op::DespawnSys(a)); v.push(Op::Run(a)); }
+                    if i.n_actors < 4 { v.push(Op::RegisterNew(Variant::Plain, Bundle::one(Trig::Broadcast(Ev::A)), Mode::Persistent)); }
+                    v.push(Op::Broadcast(Ev::A));
+                    v
+                });
+                c.top = alpha.clone();
+                c.script = alpha;
+                c.max_top = 3;
+                c.budget = n;
+                c.max_per_run = 3;
+                c.max_runs = 300;
+                c.sym_actors = vec![];
+                items.push(item(c, "respawn", &format!("N={n}")));
+            }
+            // (the lifetime rules of C07 are reported here too: state dropped while its system lives is a C13 matter)
+            reports = vec!["C13", "C15", "C07"];
             rule = "runner-core programs over three registrations of the same closure type (and exclusive / erring \
                 variants): at every run the Local counter and the captured counter equal the number of earlier runs of \
                 that registration".into();
@@ -595,6 +657,13 @@ pub fn plan(property: &str, tier: Tier) -> Option<Plan>
             for &d in ds
             {
                 items.push(item(life_cfg(format!("C11/once-life/D{d}"), false, d), "once-life", &format!("D={d}")));
+            }
+            // systems stripped of their storage component (their entity stays): the runner's defensive branches must leave
+            // the tree bookkeeping as clean as the ordinary ones
+            let ns: &[u32] = if q { &[3] } else { &[3, 4] };
+            for &n in ns
+            {
+                items.push(item(strip_cfg(format!("C11/strip/N{n}"), n), "strip", &format!("N={n}")));
             }
             reports = vec!["C11"];
             rule = "every quiescent point of runner-core and kind-rich programs (aborted, postponed, discarded and \
@@ -810,6 +879,8 @@ pub fn plan(property: &str, tier: Tier) -> Option<Plan>
                     v.push(Op::Broadcast(Ev::A));
                     v.push(Op::Broadcast(Ev::B));
                     v.push(Op::EntityEvent(Ev::A, 0));
+                    // an entity event of a type nobody listens to, aimed at an entity that has reactors of another type
+                    v.push(Op::EntityEvent(Ev::B, 0));
                     for a in i.ready_actors() { v.push(Op::SysEvent(a)); v.push(Op::DespawnSys(a)); }
                     v.push(Op::Despawn(0));
                     v
@@ -1595,32 +1666,7 @@ pub fn plan(property: &str, tier: Tier) -> Option<Plan>
             let ns: &[u32] = if q { &[3] } else { &[3, 4] };
             for &n in ns
             {
-                let mut c = Config::base(&format!("C18/strip/N{n}"));
-                c.actors = vec![Variant::Plain, Variant::Plain, Variant::Plain];
-                c.n_ents = 1;
-                c.setup = vec![
-                    Op::Register(1, Bundle::two(Trig::Broadcast(Ev::A), Trig::EntityEvent(Ev::A, 0)), Mode::Persistent),
-                    Op::Register(2, Bundle::two(Trig::Broadcast(Ev::A), Trig::Despawn(0)), Mode::Persistent),
-                    Op::RegisterNew(Variant::Plain, Bundle::one(Trig::Broadcast(Ev::A)), Mode::Revokable),
-                ];
-                c.fixed_top = vec![Op::Run(0)];
-                let alpha: AlphabetFn = Arc::new(|i: &DynInfo| {
-                    let mut v = Vec::new();
-                    for a in i.ready_actors() { v.push(Op::StripSys(a)); v.push(Op::Run(a)); v.push(Op::SysEvent(a)); }
-                    v.push(Op::Broadcast(Ev::A));
-                    v.push(Op::EntityEvent(Ev::A, 0));
-                    v.push(Op::Despawn(0));
-                    for k in i.ready_tokens() { v.push(Op::Revoke(k)); }
-                    v
-                });
-                c.script = alpha.clone();
-                c.top = alpha;
-                c.max_top = 2;
-                c.budget = n;
-                c.max_per_run = 3;
-                c.max_runs = 300;
-                c.sym_actors = vec![];
-                c.final_gc = true;
+                let c = strip_cfg(format!("C18/strip/N{n}"), n);
                 items.push(item(c, "strip", &format!("N={n}")));
             }
             // in this universe every operation names a target that may be stale: an unreleased payload, leftover
